@@ -151,6 +151,12 @@ def check(pid, tier, seed, only_report=None):
                 bad_clause = set()
                 bad_body = set()
                 for ob, f in failed_ids.items():
+                    if f["obligation"].split(":")[2] in u.lost_fns:
+                        # the function lost an optional proof hint (its anchor is gone after a restructuring): what then fails to verify in it is
+                        # an unproved obligation, not a refuted one — undecided for the properties it serves, never an alarm
+                        if pid in f["props"]:
+                            tool_errors.append("[%s] %s failed in a function that lost a proof hint: undecided" % (un, ob))
+                        continue
                     if "SHAPE" in f["props"]:
                         # a code-derived shape clause (DESIGN I.1): it pins down HOW the code does something the property does
                         # not prescribe; when it stops matching, the obligations built on it are undecided, never an alarm
